@@ -200,7 +200,7 @@ theorem i2a_congr {j : Job} {cl : Cluster} {s s' : Sys} (h : Inv2 j cl s)
   · intro w t hf; rw [hq, hran]; exact h.flight_queued_or_ran w t ((hfl w t).mp hf)
   · intro w ds; rw [hev]; exact h.ev_count w ds
   · intro w ds he; rw [hran]; exact h.ev_ran w ds ((hmem w ds).mp he)
-  · intro w ds he hl; exact (hfl _ _).mpr (h.ev_last_flight w ds ((hmem w ds).mp he) hl)
+  · intro w ds he; exact (hfl _ _).mpr (h.ev_flight w ds ((hmem w ds).mp he))
   · intro ds t ht hd; rw [hdone] at hd; rw [hptd, hpt]; exact h.ptrack_sound ds t ht hd
   · intro ds hd; rw [hpq] at hd; rw [hdone, hout, hann]; exact h.purgeQ_ok ds hd
   · intro ds t ht ha; rw [hann] at ha; rw [htrd, htr]; exact h.tracker_complete ds t ht ha
@@ -409,7 +409,7 @@ theorem i2a_step_assign (f : Sem) (j : Job) (cl : Cluster) (s s' : Sys) (a : Asg
       · exact Or.inl (Or.inr heq)
     · intro w ds; rw [hall]; exact h2.ev_count w ds
     · intro w ds he; rw [hall] at he; simp only [g1]; exact h2.ev_ran w ds he
-    · intro w ds he hl; rw [hall] at he; exact (hfl _ _).mpr (Or.inl (h2.ev_last_flight w ds he hl))
+    · intro w ds he; rw [hall] at he; exact (hfl _ _).mpr (Or.inl (h2.ev_flight w ds he))
     · intro ds t ht hd; simp only [f1] at hd; simp only [f3, f4]; exact h2.ptrack_sound ds t ht hd
     · intro ds hd; simp only [f5] at hd; simp only [f1, f6, f2]; exact h2.purgeQ_ok ds hd
     · intro ds t ht ha; simp only [f2] at ha; simp only [f7, f8]; exact h2.tracker_complete ds t ht ha
@@ -668,10 +668,10 @@ theorem i2a_step_env (f : Sem) (j : Job) (cl : Cluster) (s s' : Sys) (es : EnvSt
         · obtain ⟨_, htask, hout⟩ := hmemnew w' ds hev
           rw [htask]
           exact ⟨by simp, hout⟩
-      · intro w' ds hev hl
+      · intro w' ds hev
         rw [hall] at hev
         rcases List.mem_append.mp hev with hev | hev
-        · exact h2.ev_last_flight w' ds hev hl
+        · exact h2.ev_flight w' ds hev
         · obtain ⟨rfl, htask, _⟩ := hmemnew w' ds hev
           rw [htask]; exact hfw
       · intro ds hd; exact (r6 ds).mpr (Or.inl (h2.announced_produced ds hd))
